@@ -220,6 +220,14 @@ SHAPES_COARSE = [
 ]
 
 
+# an upper-case one-letter atom directly followed by a lower-case (aromatic) atom whose letters together spell another
+# element (Sc, Sn, Cn, Co, Cs, Nb, Os, Nb ...): they are two atoms
+ADJACENT_PAIRS = [
+    'a:C a:S a:c r:1 a:c a:c a:c a:c a:c r:1', 'a:S a:c r:1 a:c a:c a:c ( a:O ) a:c a:c r:1', 'a:C a:n r:1 a:c a:c a:c a:c r:1',
+    'a:S a:n r:1 a:c a:c a:c a:c r:1', 'a:C a:o', 'a:C a:s', 'a:N a:b', 'a:O a:s r:1 a:c a:c a:c a:c r:1', 'a:C a:C a:S a:c r:1 a:c a:c a:n a:c a:c r:1',
+]
+
+
 def fill(shape, atoms):
     it = iter(atoms)
     return ' '.join(next(it) if t == 'x' else t for t in shape.split(' '))
@@ -240,7 +248,7 @@ def shifted_fillings(shape, atoms, n_fill, step=3):
 
 def skeletons(tier):
     """The enumerated skeleton set of a tier: list of (skeleton string, family)."""
-    out = []
+    out = [(s, 'atomistic') for s in ADJACENT_PAIRS]
     if tier == 'quick':
         at, co = ATOMS_ATOMISTIC[:8], ATOMS_COARSE[:4]
         for sh in SHAPES_ATOMISTIC:
